@@ -24,8 +24,9 @@ class RuleHarness:
     def __init__(self, params):
         self.p = params
         self.rule = params["rule"]
-        self.skeleton = params["skeleton"]
-        self.holes = list(params["holes"])
+        self.skeleton = params.get("skeleton", "")
+        self.holes = list(params.get("holes", []))
+        self.template = params.get("template")
         app.the_vfs()
         self.rid = "md013" if self.rule == "md013x" else self.rule
         self.en, self.dis = env.only_rule(self.rid)
@@ -34,6 +35,8 @@ class RuleHarness:
 
     def variables(self):
         v = [(f"c{i}", "int") for i in range(len(self.holes))]
+        if self.template:
+            v = [(f"n{i}", "int") for i, _x in enumerate(x for x in self.template if not isinstance(x, str))]
         if self.rule == "md009":
             v += [("br", "int"), ("strict", "bool")]
         elif self.rule == "md012":
@@ -42,6 +45,8 @@ class RuleHarness:
             v += [("limit", "int"), ("strict", "bool")]
         elif self.rule == "md013x":
             v += [("limit", "int"), ("hlimit", "int"), ("climit", "int"), ("code_blocks", "bool"), ("headings", "bool")]
+        elif self.rule in ("md025", "md041"):
+            v += [("level", "int")]
         return v
 
     def config(self, v):
@@ -58,6 +63,10 @@ class RuleHarness:
                 return None
             n = v["limit"]
             return {"line_length": n, "heading_line_length": n, "code_block_line_length": n, "strict": True if v["strict"] else False}
+        if self.rule in ("md025", "md041"):
+            if not (1 <= v["level"] <= 6):
+                return None
+            return {"level": v["level"]}
         if self.rule == "md013x":
             for k in ("limit", "hlimit", "climit"):
                 if not (1 <= v[k] <= 12):
@@ -77,7 +86,14 @@ class RuleHarness:
         cfg = self.config(v)
         if cfg is None:
             return SKIP
-        d = sym_doc(build_cells(self.skeleton, self.holes, cells))
+        if self.template:
+            from checks.scan_sym import DocMixin
+
+            d = DocMixin.doc_from_template(self, v)
+            if d is None:
+                return SKIP
+        else:
+            d = sym_doc(build_cells(self.skeleton, self.holes, cells))
         # C03 precondition: the parser's block structure is the reference's
         try:
             g = TransformToGfm().transform(self.tok.transform(d, show_debug=False))
@@ -113,6 +129,25 @@ class RuleHarness:
             if has_container or has_html:
                 return SKIP
             want = rrule.md013x(lines, code, rrule.heading_lines(mtoks), (cfg["line_length"], cfg["heading_line_length"], cfg["code_block_line_length"]), cfg["code_blocks"], cfg["headings"], False)
+        elif self.rule in ("md001", "md018", "md019", "md023", "md040", "md025", "md041"):
+            if has_container or (has_html and self.rule == "md041"):
+                return SKIP
+            if self.rule == "md001":
+                want = rrule.md001(mtoks)
+            elif self.rule == "md018":
+                want = rrule.md018(lines, mtoks)
+            elif self.rule == "md019":
+                want = rrule.md019(lines, mtoks)
+                if want is None:
+                    return SKIP
+            elif self.rule == "md023":
+                want = rrule.md023(lines, mtoks)
+            elif self.rule == "md040":
+                want = rrule.md040(mtoks)
+            elif self.rule == "md025":
+                want = rrule.md025(mtoks, cfg["level"])
+            else:
+                want = rrule.md041(lines, mtoks, cfg["level"])
         elif self.rule == "md047":
             if len(d) == 0:
                 return SKIP
